@@ -185,6 +185,24 @@ def _short(v):
     return v
 
 
+def patch_flag(pdvs, value):
+    """the PDV list with CommandDataSetType (0000,0800) of the command set replaced by `value` (same lengths, same
+    fragmentation); None if the element is not found"""
+    cmd = b"".join(p for _, k, p in pdvs if k & 1)
+    i = cmd.find(b"\x00\x00\x00\x08\x02\x00\x00\x00")
+    if i < 0:
+        return None
+    cmd = cmd[: i + 8] + bytes([value & 0xFF, value >> 8]) + cmd[i + 10 :]
+    out, pos = [], 0
+    for c, k, p in pdvs:
+        if k & 1:
+            out.append((c, k, cmd[pos : pos + len(p)]))
+            pos += len(p)
+        else:
+            out.append((c, k, p))
+    return out
+
+
 def run_msgs(ctx, cases, tmpdir, adversarial=0.15, oracle_only=False):
     rng = random.Random(ctx.seed * 7919 + 13)
     for i in range(0, len(cases), CHUNK):
@@ -226,6 +244,22 @@ def _run_msgs(ctx, cases, tmpdir, adversarial, oracle_only, rng):
             if real_dec is not None:
                 reqs.append(dc.lean_dec_request(groups))
                 pending.append(("dec", c, real_dec))
+                if b.flag == 0x0001 and rng.random() < 0.35:
+                    # PS3.7: 0101H = no data set, ANY other value = a data set follows; pynetdicom writes 0001H, a peer
+                    # may write something else
+                    val = rng.choice([0x0000, 0x0102, 0x0002, 0x0100, 0xFFFF])
+                    pf = patch_flag(pdvs, val)
+                    if pf is not None:
+                        g3 = dc.regroup(pf, rng.randrange(1 << 30))
+                        r3, _ = dc.real_decode(g3, c["wire"])
+                        c3 = {"op": "peer-flag", "flag": val, "groups": g3}
+                        ctx.case(c3, nontrivial=True, kind="peer-flag-decode:" + r3[0])
+                        if r3[0] != "complete" or r3[3] != b.expect_ds:
+                            ctx.fail(f"{PREFIX}:peer-dataset-flag:{val:#06x}",
+                                     f"a message whose CommandDataSetType is {val:#06x} (a data set follows) decodes as {r3[0]} "
+                                     f"with {len(r3[3])} data-set bytes, sent {len(b.expect_ds)}", c3)
+                        reqs.append(dc.lean_dec_request(g3))
+                        pending.append(("dec", c3, r3))
                 if rng.random() < adversarial:
                     bad = mutate_pdvs(pdvs, rng)
                     g2 = dc.regroup(bad, rng.randrange(1 << 30))
@@ -452,6 +486,10 @@ def replay(ctx, case):
         peer = c["acc_max"] if c["requestor"] else c["req_max"]
         print("maximum_pdu_size:", mx, "peer's maximum:", peer, "PDV-list sizes:", sizes[:40], "exception:", err, "intact:", intact)
         return 1 if (peer and any(sz > peer for sz in sizes)) or err or not intact else 0
+    if c["op"] == "peer-flag":
+        r = dc.real_decode([[(a, k, bytes.fromhex(p[1:])) if isinstance(p, str) else (a, k, bytes(p)) for a, k, p in g] for g in c["groups"]])[0]
+        print("CommandDataSetType %#06x -> receiver: %s, %d data-set bytes" % (c["flag"], r[0], len(r[3])))
+        return 0 if r[0] == "complete" and len(r[3]) > 0 else 1
     if c["op"] == "adv":
         print(dc.real_decode([[(a, k, bytes.fromhex(p[1:])) for a, k, p in g] for g in c["groups"]])[0])
         return 0
